@@ -2,7 +2,7 @@
 import kcp_common as K
 
 META = {
-    "enabled": False,
+    "enabled": True,
     "engine": "kcp",
     "technique": "Coq proofs of the liveness building blocks (ack owed, due retransmission, no give-up, Check/Update soundness) for all reachable states; drain-after-healing decided by exhaustive-fate and random simulation of the real cores (partial)",
     "level_text": "Proved for every reachable state and clock value: the dead-link flag influences no transition; every PUSH below the upper window edge, new or duplicate, appends an ack which the next flush of either kind emits or covers by the cumulative una; every unacknowledged segment whose timer expired (or never sent) is put on the wire by the next full flush with its original payload; per-timeout back-off is additive and <= 60 s per step; Check never sleeps past a due flush/retransmission; Update flushes when due. PARTIAL: the whole-system progress theorem (a fair round of a healed network strictly advances snd_una or shrinks the backlog) is not mechanised; drain-within-bound is decided on the real cores for all fate vectors of the first K datagrams, random fault histories, outages of 0..10 min, both drivers, and the F13 wedge replay.",
